@@ -305,3 +305,37 @@ pub fn peer_params_cid_auth_native(server: bool, which: u8) -> u32 {
     }
     1
 }
+
+/// Native replay body for the E2 query `e2_migrate` (C15): after `Connection::migrate` the new path
+/// is unvalidated and carries a pending challenge; the path to return to when validation fails is
+/// replaced only by a path that was not itself awaiting validation.
+pub fn migrate_native(old_challenged: bool, old_pending: bool, v4: bool) -> u32 {
+    let mut conn = mk_conn(true, true);
+    let now = crate::verif::mk_instant(51, 0).unwrap();
+    // the original, validated path the connection may have to return to
+    let original = PathData::new(addr(9, 9), false, None, 0, now, &conn.config);
+    let mut orig = original;
+    orig.validated = true;
+    orig.total_sent = 1111;
+    conn.prev_path = Some((ConnectionId::new(&[7; 8]), orig));
+    conn.path.validated = !old_challenged;
+    conn.path.challenge = if old_challenged { Some(5) } else { None };
+    conn.path.challenge_pending = old_challenged && old_pending;
+    conn.path.total_sent = 2222;
+    let old_remote = conn.path.remote;
+    let new_remote = if v4 { addr(1, 5555) } else { SocketAddr::new(IpAddr::V6(std::net::Ipv6Addr::new(0x2001, 0xdb8, 0, 0, 0, 0, 0, 1)), 1111) };
+    conn.migrate(now, new_remote);
+    assert!(conn.path.remote == new_remote);
+    assert!(!conn.path.validated, "a path created by migration starts validated");
+    assert!(conn.path.challenge.is_some() && conn.path.challenge_pending, "no challenge pending on the new path");
+    assert!(conn.timers.get(Timer::PathValidation).is_some(), "path validation timer not armed");
+    let (_, prev) = conn.prev_path.as_ref().expect("previous path dropped");
+    if old_challenged {
+        assert!(prev.remote == addr(9, 9) && prev.total_sent == 1111, "an unvalidated path replaced the path to return to");
+        1
+    } else {
+        assert!(prev.remote == old_remote && prev.total_sent == 2222, "the validated path was not kept as the path to return to");
+        assert!(prev.challenge.is_some() && prev.challenge_pending);
+        2
+    }
+}
